@@ -175,6 +175,12 @@ def task(seed):
 def _task(seed):
     spec = add_rows_the_loader_drops(widen(wp.spec_from_seed(seed, boundary=True), seed), seed)
     # keep a single run inside the budget: the cross product is sampled, not the product of all maxima
+    n_mut_ = len(set(r_["mutation_id"] for r_ in spec["inputs"]["rows"]))
+    if n_mut_ >= 16 and spec["options"]["proposal"] == "fully-adapted" and not spec.get("big"):
+        # the fully adapted proposal scores 2^R placements for R top-level clones: with tens of mutations and a large
+        # concentration a valid run takes hours (run seed 1231133425579934421: 40 mutations, alpha 50, was still running after
+        # 780 s).  Slow is not what C19 is about; C08 checks that proposal on parents of up to 11 top-level clones.
+        spec["options"]["proposal"] = "semi-adapted"
     while cost(spec) > 20000 and not spec.get("big"):
         o = spec["options"]
         if o["num_iters"] > 2:
